@@ -158,6 +158,54 @@ def gen_spec(rng, with_dst=True):
     return spec
 
 
+def gen_sibling(rng, spec):
+    """A specification that differs from `spec` in exactly one aspect (names
+    never coincide, so the two are different TZ strings): what a memo keyed
+    on part of the specification would confuse."""
+    sib = dict(spec)
+    for k in ("start", "end"):
+        if k in sib:
+            sib[k] = list(sib[k])
+    std2, dst2 = rng.sample([n for n in NAMES
+                             if n not in (spec["std"], spec.get("dst"))], 2)
+    if not spec.get("dst"):
+        sib["std"] = std2
+        sib["stdoff"] = spec["stdoff"] + rng.choice([-3600, 1800, 3600])
+        return sib
+    how = rng.choice(["stdoff_keep_dstoff", "stdoff_keep_dstoff",
+                      "shift_both", "names_only", "start_time", "end_time",
+                      "saving", "end_rule"])
+    if rng.random() < 0.7 or how == "names_only":
+        sib["std"], sib["dst"] = std2, dst2
+    sav = spec["dstoff"] - spec["stdoff"]
+    if how == "stdoff_keep_dstoff":
+        # same daylight offset, other standard offset: other saving
+        new_sav = rng.choice([x for x in (1800, 3600, 7200) if x != sav])
+        sib["stdoff"] = spec["dstoff"] - new_sav
+    elif how == "shift_both":
+        d = rng.choice([-3600, 1800, 3600, 7200])
+        sib["stdoff"] = spec["stdoff"] + d
+        sib["dstoff"] = spec["dstoff"] + d
+    elif how == "saving":
+        new_sav = rng.choice([x for x in (1800, 3600, 7200) if x != sav])
+        sib["dstoff"] = spec["stdoff"] + new_sav
+    elif how in ("start_time", "end_time"):
+        k = how.split("_")[0]
+        times = [t for t in (0, 1800, 3600, 7200, 10800, 82800, 86400)
+                 if t != sib[k][-1]]
+        sib[k][-1] = rng.choice(times)
+    elif how == "end_rule":
+        a, b = transitions_utc(spec, 2023)
+        lo, hi = (8, 11) if a < b else (2, 5)
+        sib["end"] = gen_rule(rng, lo, hi)
+    if abs(sib["stdoff"]) > 14 * 3600 or abs(sib["dstoff"]) > 15 * 3600:
+        return gen_sibling(rng, spec)
+    if sib["std"] == spec["std"] and sib.get("dst") == spec.get("dst") and \
+            tz_string(sib) == tz_string(spec):
+        sib["std"], sib["dst"] = std2, dst2
+    return sib
+
+
 def rule_times_in_day(spec):
     """True when both rule times, expressed in local STANDARD time (which is
     how dateutil's relativedelta rules are written), fall inside [0, 24h)."""
